@@ -142,6 +142,10 @@ pub fn run(cfg: Config) -> i32 {
 fn check(m: &mut Monitor, case: u64, c: &Case, t: f64, x: &[f64]) {
     let eos = &c.mc.eos;
     let tag = c.tag.as_str();
+    if !model_smooth_at(&c.mc.spec, t) {
+        m.skip("virial", "model not differentiable here (PR alpha kink)");
+        return;
+    }
     let xa = Array1::from_vec(x.to_vec());
     let moles = Moles::from_reduced(xa.clone());
     let temp = Temperature::from_reduced(t);
@@ -185,6 +189,10 @@ fn check(m: &mut Monitor, case: u64, c: &Case, t: f64, x: &[f64]) {
     };
     let b_bar = (b_lim - b_lim2).abs();
     let c_bar = (c_lim - c_lim2).abs();
+    // the expansion (Z-1)/rho = B + C rho + .. must converge at the probe densities:
+    // strongly associating fluids at low T are already saturated there
+    let vb0 = 1.0 / rmax;
+    let converged = (c_lim.abs().max(cc.abs()) * 1e-4 * rmax) < 0.1 * b_lim.abs().max(vb0);
     let nontrivial = b_lim.abs() > 1e-3;
     m.case(&c.mc.family, crate::prng::hash_f64s(&c.mc.label(), &[t, x[0]]), nontrivial);
     if m.samples.len() < 3 {
@@ -202,7 +210,7 @@ fn check(m: &mut Monitor, case: u64, c: &Case, t: f64, x: &[f64]) {
     let vb = 1.0 / rmax;
     if b.is_finite() {
         let den = b.abs().max(b_lim.abs()).max(1e-2 * vb);
-        if b_bar / den > 1e-4 {
+        if b_bar / den > 1e-4 || !converged {
             m.skip("limit:B", "reference unresolved");
         } else {
             let dev = ((b - b_lim).abs() - 3.0 * b_bar).max(0.0) / den;
@@ -211,7 +219,7 @@ fn check(m: &mut Monitor, case: u64, c: &Case, t: f64, x: &[f64]) {
     }
     if cc.is_finite() {
         let den = cc.abs().max(c_lim.abs()).max(1e-2 * vb * vb);
-        if c_bar / den > 1e-2 {
+        if c_bar / den > 1e-2 || !converged {
             m.skip("limit:C", "reference unresolved");
         } else {
             let dev = ((cc - c_lim).abs() - 3.0 * c_bar).max(0.0) / den;
@@ -241,15 +249,5 @@ fn check(m: &mut Monitor, case: u64, c: &Case, t: f64, x: &[f64]) {
         }
     } else {
         m.skip("fd", "coefficient not finite around T");
-    }
-    // temperature derivative of the limit as an independent check of dB/dT
-    if dbdt.is_finite() {
-        let gl = |tt: f64| lim(tt, 1e-5 * rmax).map(|(b, _)| vec![b]);
-        let d = ests_rel(gl, t, &[1e-3, 4e-3]);
-        if let Some(j) = judge(dbdt, &d, 0, 1.0, 1e-2 * vb / t) {
-            if j.relerr < 1e-4 {
-                m.check("limit:dB/dT", &format!("{tag}|limit:dB/dT"), case, j.dev, 1e-5, det("dB/dT vs d(limit)/dT", dbdt, j.fd));
-            }
-        }
     }
 }
